@@ -29,6 +29,7 @@ const (
 	kLocalPeer  = "KLocalPeer"  // local close racing a peer close frame
 	kLocalWrite = "KLocalWrite" // local close racing a failing write
 	kLocalEof   = "KLocalEof"   // local close racing an abrupt EOF
+	kSlowLocal  = "KSlowLocal"  // local close whose close-frame write is slow; a write call is made meanwhile
 )
 
 type scen struct {
@@ -224,6 +225,8 @@ func runScen(sc scen) (res result) {
 		fc.failWriteAt = int64(sc.K)
 	case kFullLocal:
 		fc.slowWriteAt = int64(sc.K)
+	case kSlowLocal:
+		fc.slowWriteAt = 1 // no write precedes the close frame: writers start once it is under way
 	}
 	sutConn, peer, err := wsPair(fc, c2, sc.SutServer)
 	if err != nil {
@@ -293,12 +296,20 @@ func runScen(sc scen) (res result) {
 		c.End = seq.Add(1)
 	}
 	startCh := make(chan struct{})
+	localOver := make(chan struct{}) // closed when CloseDataConnection has returned
+	var localOnce sync.Once
 	for g := 0; g < sc.Writers; g++ {
 		wg.Add(1)
 		yr := rng.Fork()
 		go func(g int) {
 			defer wg.Done()
 			<-startCh
+			if sc.Kind == kSlowLocal {
+				select {
+				case <-fc.slowEntered:
+				case <-localOver:
+				}
+			}
 			if hl != nil {
 				// write only once the read pump is parked with a message in hand ...
 				select {
@@ -336,6 +347,7 @@ func runScen(sc scen) (res result) {
 		}
 		res.LocalDone = true
 		sut.CloseDataConnection(4001, reason)
+		localOnce.Do(func() { close(localOver) })
 	}
 	peerEvent := func(kind string) {
 		res.PeerEvent = true
@@ -382,10 +394,37 @@ func runScen(sc scen) (res result) {
 		if at > int64(total) {
 			at = int64(total)
 		}
-		if sc.Kind != kSlowFail && sc.Kind != kFullLocal {
+		if sc.Kind != kSlowFail && sc.Kind != kFullLocal && sc.Kind != kSlowLocal {
 			poll(capWriters, func() bool { return started.Load() >= at })
 		}
 		switch sc.Kind {
+		case kSlowLocal:
+			// the close frame (if any: reason) is being written slowly and the write mutex is
+			// held; calls made now queue behind it; the pump, if it still takes them, waits for
+			// the write mutex (long enough for the mutex to hand over directly); then let go
+			d := make(chan struct{})
+			go func() { localClose(); close(d) }()
+			poll(capSettle, func() bool {
+				select {
+				case <-fc.slowEntered:
+					return true
+				case <-d:
+					return true
+				default:
+					return false
+				}
+			})
+			poll(capSettle, func() bool {
+				select {
+				case <-wdone:
+					return true
+				default:
+					return false
+				}
+			})
+			time.Sleep(3 * time.Millisecond) // a scheduling nudge only: no observation depends on it
+			close(fc.gate)
+			<-d
 		case kLocal:
 			localClose()
 		case kPeerClose, kEof, kBadFrame:
